@@ -23,6 +23,10 @@ CHECKS = {
             "Bounded: DAGs <= 4 (5) nodes, digraphs <= 3 inner nodes, k <= 5; graph algorithms run concretely per enumerated graph.", "z3; spec encodings", "5/C09"),
     "C12": (MC, "z3 on the LP rows produced by each helper on a raw SolverWrapper: soundness and completeness (canonical witness for auxiliaries) over all variable values; bound/objective op sequences vs snapshot",
             "Bounds enumerated (they must be concrete to cross into HiGHS); values symbolic.", "z3; highspy getLp()", "5/C12"),
+    "C13": (MC, "CrossHair symbolic execution of the real search loops / abstract solve() over a symbolic outcome sequence (status per solver invocation, clock increments), plus status injection at the highspy boundary into the real classes",
+            "Bounded: <= 5 solver invocations, 5-status alphabet; 'Confirmed over all paths' per harness with reachability twin.", "CrossHair/z3; k-model stubs validated by injected runs on the real classes", "5/C13"),
+    "C14": (MC, "CrossHair symbolic execution of the real get_solution_walks/_reconstruct_eulerian_walk with a symbolic multiplicity per edge of enumerated universe graphs",
+            "Bounded: universes <= 4 inner nodes, <= 10 edges, multiplicity <= 3; 'Confirmed over all paths' with reachability twin.", "CrossHair/z3", "5/C14"),
 }
 
 NOT_YET = {}
